@@ -106,6 +106,18 @@ bool applyEdit(NifFile& nif, const json& st, Ctx& ctx, NifFile* other) {
 		ctx.probe("edit_through_shape_object");
 		return true;
 	}
+	if (op == "ReplaceWithClone") {
+		// ReplaceBlock with a block of the same type (a clone of the block itself)
+		auto& hdr = nif.GetHeader();
+		uint32_t nb = hdr.GetNumBlocks();
+		if (nb < 2 || nif.HasUnknown()) return false;
+		uint32_t id = 1 + uint32_t(salt % (nb - 1));
+		auto obj = hdr.GetBlock<NiObject>(id);
+		if (!obj || dynamic_cast<NiGeometryData*>(obj) || dynamic_cast<NiShape*>(obj)) return false; // shapes/data are linked by raw pointers
+		hdr.ReplaceBlock(id, obj->Clone());
+		ctx.probe("edit_replace_with_clone");
+		return true;
+	}
 	if (op == "OffsetShape") {
 		if (!shape) return false;
 		nif.OffsetShape(shape, Vector3(1.0f, 0.5f, -0.25f));
@@ -233,7 +245,7 @@ const std::vector<std::string>& editOps() {
 	static std::vector<std::string> v = {"DeleteVerts", "AddNode", "DeleteNode", "DeleteShape", "RenameShape", "SetTexture", "OffsetShape", "MoveVertex",
 										 "SetNodeTransform", "SetNodeName", "AddExtraData", "AddLooseBlock", "CloneShape", "AddShape", "CalcNormals", "CalcTangents",
 										 "InvertUVs", "UpdateSkinPartitions", "DeleteSkinning", "DeleteShader", "AlphaProperty", "SetParentNode", "PrettySort",
-										 "Optimize", "TrimTexturePaths", "FixBSXFlags", "FixShaderFlags", "DeleteUnreferenced", "OptimizeFor", "ShapeSetTriangles", "ShapeSetBounds", "ShapeToggleColors", "ShapeUpdateBounds", "SetTexturePath"};
+										 "Optimize", "TrimTexturePaths", "FixBSXFlags", "FixShaderFlags", "DeleteUnreferenced", "OptimizeFor", "ShapeSetTriangles", "ShapeSetBounds", "ShapeToggleColors", "ShapeUpdateBounds", "SetTexturePath", "ReplaceWithClone"};
 	return v;
 }
 
